@@ -15,6 +15,7 @@ from collections.abc import Iterable
 from ..basic import Cut
 from ..choice import Choice
 from ..base import Box, Model, Rule
+from ..rulelike import BasedRule, RuleInclude
 from ..syntax import Call, Sequence
 from . import sccutils
 
@@ -46,6 +47,10 @@ def _callable_rule_ids(exp: Model, rule_index: dict[str, int]) -> list[int]:
     if isinstance(exp, Box):
         return _callable_rule_ids(exp.exp, rule_index)
 
+    if isinstance(exp, RuleInclude) and exp.exp is not None:
+        # NOTE: the included right hand side stands in this place
+        return _callable_rule_ids(exp.exp, rule_index)
+
     return []
 
 
@@ -59,6 +64,9 @@ def _is_nullable_safe(exp: Model) -> bool:
     if isinstance(exp, Choice):
         return any(_is_nullable_safe(opt) for opt in exp.options)
 
+    if isinstance(exp, RuleInclude) and exp.exp is not None:
+        return _is_nullable_safe(exp.exp)
+
     return exp.is_nullable()
 
 
@@ -68,7 +76,8 @@ def _make_first_graph(
     graph: dict[str, set[str]] = {}
     for rule in rules:
         graph[rule.name] = {
-            rules[i].name for i in _callable_rule_ids(rule.exp, rule_index)
+            # NOTE: a based rule parses the right hand side of its base and then its own
+            rules[i].name for i in _callable_rule_ids(rule.rhs if isinstance(rule, BasedRule) else rule.exp, rule_index)
         }
 
     all_vertices: set[str] = set(graph.keys())
